@@ -1104,6 +1104,158 @@ def ctype(text):
     return t
 
 
+def rule_cxx_headers(chk):
+    """the two C++ headers the NNPS extensions compile: bucket chains never lose an entry on insertion; the Morton key interleaves 21 bits per axis injectively; the
+    space-filling-curve sort orders ids by their keys"""
+    from verif_static import cxx2ast as X
+    SH, ZO = 'pysph/base/spatial_hash.h', 'pysph/base/z_order.h'
+    sh = X.load(REPO, SH)
+    ht = [c for c in sh.body if isinstance(c, ast.ClassDef) and c.name == 'HashTable']
+    if not ht:
+        raise AnalysisError('HashTable vanished from %s' % SH)
+    add = [f for f in ht[0].body if isinstance(f, ast.FunctionDef) and f.name == 'add']
+    if not add:
+        raise AnalysisError('HashTable::add vanished')
+    add = add[0]
+    M.set_parents(add)
+    # traversal: `while cur != NULL: ...; prev = cur; cur = cur->next`
+    loops = [l for l in ast.walk(add) if isinstance(l, ast.While) and isinstance(l.test, ast.Compare) and isinstance(l.test.ops[0], ast.NotEq) and
+             isinstance(l.test.comparators[0], ast.Constant) and l.test.comparators[0].value is None and isinstance(l.test.left, ast.Name)]
+    cur = loops[0].test.left.id if len(loops) == 1 else None
+    preds = set()
+    if cur:
+        adv = [a for a in loops[0].body if isinstance(a, ast.Assign) and compact(a.targets[0]) == cur and compact(a.value) == cur + '.next']
+        for a in loops[0].body:
+            if isinstance(a, ast.Assign) and isinstance(a.targets[0], ast.Name) and compact(a.value) == cur and adv and a.lineno <= adv[0].lineno:
+                # a predecessor variable: None before the loop, the node just left otherwise; assigned nowhere else
+                nm = a.targets[0].id
+                others = [b for b in ast.walk(add) if isinstance(b, (ast.Assign, ast.AnnAssign)) and compact(b.target if isinstance(b, ast.AnnAssign) else b.targets[0]) == nm and b is not a]
+                if all(isinstance(b.value, ast.Constant) and b.value.value is None and b.lineno < loops[0].lineno for b in others):
+                    preds.add(nm)
+    news = set(compact(a.targets[0]) for a in ast.walk(add) if isinstance(a, ast.Assign) and isinstance(a.value, ast.Call) and (M.call_name(a.value) or '').startswith('new_'))
+    links = [a for a in ast.walk(add) if isinstance(a, ast.Assign) and ((isinstance(a.targets[0], ast.Attribute) and a.targets[0].attr == 'next') or
+                                                                       (isinstance(a.targets[0], ast.Subscript) and compact(a.targets[0].value).endswith('hashtable')))]
+
+    def conds(node):
+        out = []
+        c_ = node
+        while getattr(c_, 'parent', None) is not None and c_.parent is not add:
+            par = c_.parent
+            if isinstance(par, ast.If):
+                out.append((compact(par.test), any(c_ is x for x in par.body)))
+            c_ = par
+        return out
+    # a snapshot of the bucket head taken before the traversal and never reassigned: `head == NULL` then means the bucket is empty
+    heads = set()
+    for b in ast.walk(add):
+        if isinstance(b, (ast.Assign, ast.AnnAssign)) and b.value is not None and compact(b.value).endswith('hashtable[key]'):
+            nm = compact(b.target if isinstance(b, ast.AnnAssign) else b.targets[0])
+            if nm != cur and len([c_ for c_ in ast.walk(add) if isinstance(c_, (ast.Assign, ast.AnnAssign)) and compact(c_.target if isinstance(c_, ast.AnnAssign) else c_.targets[0]) == nm]) == 1:
+                heads.add(nm)
+    n = 0
+    for a in links:
+        tgt = a.targets[0]
+        val = compact(a.value)
+        if isinstance(tgt, ast.Attribute) and compact(tgt.value) in news:
+            continue            # the fresh node's own `next`: nothing hangs behind it yet
+        n += 1
+        cs = conds(a)
+        after_loop = bool(loops) and a.lineno > loops[0].lineno
+        exhausted = any((t in ('%s!=None' % cur, 'None!=%s' % cur) and not taken) or (t in ('%s==None' % cur, 'None==%s' % cur) and taken) for t, taken in cs)
+        ok, why = False, ''
+        if isinstance(tgt, ast.Attribute):
+            holder = compact(tgt.value)
+            keeps = any(isinstance(b, ast.Assign) and compact(b.targets[0]) == val + '.next' and compact(b.value) == holder + '.next' and b.lineno < a.lineno for b in ast.walk(add))
+            tail = holder in preds and after_loop and exhausted and any((t in ('%s==None' % holder,) and not taken) or (t in ('%s!=None' % holder,) and taken) for t, taken in cs)
+            ok = keeps or tail
+            why = 'tail of the chain' if tail else 'successor kept'
+        else:
+            keeps = any(isinstance(b, ast.Assign) and compact(b.targets[0]) == val + '.next' and compact(b.value) == compact(tgt) and b.lineno < a.lineno for b in ast.walk(add))
+            empty = after_loop and exhausted and any(p_ in preds and ((t == '%s==None' % p_ and taken) or (t == '%s!=None' % p_ and not taken)) for t, taken in cs for p_ in preds)
+            empty = empty or any((t == '%s==None' % h_ and taken) or (t == '%s!=None' % h_ and not taken) for t, taken in cs for h_ in heads)
+            ok = keeps or empty
+            why = 'empty bucket' if empty else 'old head kept behind the new node'
+        chk.decide(ok and val in news, 'hash-chain-keeps-every-cell', 'HashTable::add:%s=%s' % (compact(tgt), val), node=a, file=SH, func='HashTable::add',
+                   detail_bad='`%s = %s` under %s: the link is overwritten although it is neither the end of the chain (predecessor of an exhausted traversal) nor is its old successor '
+                              'hung behind the new node - every cell already chained there is lost, its particles disappear from all neighbour lists' % (compact(tgt), val, cs),
+                   detail_ok=why)
+    chk.floor('links written by HashTable::add', n, 1)
+    # ---- Morton key: symbolic bits
+    zo = X.load(REPO, ZO)
+    gk = [f for f in zo.body if isinstance(f, ast.FunctionDef) and f.name == 'get_key']
+    if not gk:
+        raise AnalysisError('get_key vanished from %s' % ZO)
+    gk = gk[0]
+    NB_ = 21
+    params = [a.arg for a in gk.args.args]
+
+    def bits_of(e, env):
+        """64 entries, each a frozenset of (axis, source bit) that are OR-ed into that position"""
+        if isinstance(e, ast.Name):
+            return env[e.id]
+        if isinstance(e, ast.Constant) and isinstance(e.value, int):
+            return ('const', e.value)
+        if isinstance(e, ast.BinOp):
+            a_, b_ = bits_of(e.left, env), bits_of(e.right, env)
+            if isinstance(e.op, ast.LShift) and isinstance(b_, tuple):
+                k_ = b_[1]
+                return [frozenset()] * k_ + list(a_[:64 - k_])
+            if isinstance(e.op, ast.BitOr) and not isinstance(a_, tuple) and not isinstance(b_, tuple):
+                return [x | y for x, y in zip(a_, b_)]
+            if isinstance(e.op, ast.BitAnd) and isinstance(b_, tuple):
+                return [x if (b_[1] >> i_) & 1 else frozenset() for i_, x in enumerate(a_)]
+            if isinstance(e.op, ast.BitAnd) and isinstance(a_, tuple):
+                return [x if (a_[1] >> i_) & 1 else frozenset() for i_, x in enumerate(b_)]
+        raise AnalysisError('get_key: expression %s not modelled' % compact(e))
+    env = dict((p_, [frozenset([(p_, b)]) if b < NB_ else frozenset() for b in range(64)]) for p_ in params)
+    result = None
+    for st in gk.body:
+        if isinstance(st, ast.Assign) and isinstance(st.targets[0], ast.Name):
+            env[st.targets[0].id] = bits_of(st.value, env)
+        elif isinstance(st, ast.Return):
+            result = bits_of(st.value, env)
+    ok = result is not None
+    detail = ''
+    if ok:
+        seen = {}
+        for pos, srcs in enumerate(result):
+            if len(srcs) > 1:
+                ok, detail = False, 'result bit %d mixes %s' % (pos, sorted(srcs))
+                break
+            for s_ in srcs:
+                if s_ in seen:
+                    ok, detail = False, 'input bit %s lands on bits %d and %d' % (s_, seen[s_], pos)
+                seen[s_] = pos
+        if ok:
+            missing = [(p_, b) for p_ in params for b in range(NB_) if (p_, b) not in seen]
+            if missing:
+                ok, detail = False, 'input bits %s do not reach the key' % missing[:4]
+            else:
+                want = dict(((p_, b), 3 * b + ax) for ax, p_ in enumerate(params) for b in range(NB_))
+                wrong = [(s_, seen[s_], want[s_]) for s_ in want if seen[s_] != want[s_]]
+                if wrong:
+                    ok, detail = False, 'bit %s of the cell id lands on key bit %d, the Z-order interleave puts it on %d' % wrong[0]
+    chk.decide(ok, 'morton-key-is-the-bit-interleave', 'get_key', node=gk, file=ZO, func='get_key',
+               detail_bad='symbolic evaluation of the shifts and masks on 21 bits per axis: %s - two different cells can receive one key (or the curve order is not the Z-order the box table assumes)' % detail,
+               detail_ok='bit b of axis a -> key bit 3b + a, for all 63 bits: the key is injective on 21-bit cell ids')
+    csw = [c for c in zo.body if isinstance(c, ast.ClassDef) and c.name == 'CompareSortWrapper']
+    okc = False
+    if csw:
+        cmpw = [c for c in csw[0].body if isinstance(c, ast.ClassDef)]
+        op = [f for c in cmpw for f in c.body if isinstance(f, ast.FunctionDef) and f.name.startswith('operator')]
+        rets = [r for f in op for r in ast.walk(f) if isinstance(r, ast.Return)]
+        a_, b_ = (op[0].args.args[0].arg, op[0].args.args[1].arg) if op and len(op[0].args.args) == 2 else (None, None)
+        okc = len(rets) == 1 and isinstance(rets[0].value, ast.Compare) and isinstance(rets[0].value.ops[0], ast.Lt) and \
+            compact(rets[0].value.left) == 'this.data.current_keys[%s]' % a_ and compact(rets[0].value.comparators[0]) == 'this.data.current_keys[%s]' % b_
+        cs_ = [f for f in csw[0].body if isinstance(f, ast.FunctionDef) and f.name == 'compare_sort']
+        sorts = [c for f in cs_ for c in M.calls(f) if M.call_name(c) == 'sort']
+        okc = okc and len(sorts) == 2 and compact(sorts[0].args[0]) == 'this.current_pids' and same(sorts[0].args[1], 'this.current_pids+this.length') and len(sorts[0].args) == 3 and \
+            compact(sorts[1].args[0]) == 'this.current_keys' and same(sorts[1].args[1], 'this.current_keys+this.length') and sorts[0].lineno < sorts[1].lineno
+    chk.decide(okc, 'morton-key-is-the-bit-interleave', 'ids-sorted-by-key', node=csw[0] if csw else zo, file=ZO, func='CompareSortWrapper::compare_sort',
+               detail_bad='particle ids must be sorted by keys[a] < keys[b] over [0, length) BEFORE the keys themselves are sorted (afterwards keys[id] no longer belongs to id)',
+               detail_ok='ids by key over the whole range, then keys')
+
+
 def rule_narrowing(chk):
     """keys of 64-bit-keyed containers (sparse cell tables) are computed in 64 bits end to end: a variable stored as such a key, or used to look one up, is declared at least as
     wide as the key type (ids beyond 2**31 would otherwise be truncated at insertion and alias other cells, while the look-ups use the full id)"""
@@ -1247,6 +1399,7 @@ def main(chk):
     rule_no_pruning(chk, ci, concrete)
     rule_octree(chk)
     rule_narrowing(chk)
+    rule_cxx_headers(chk)
     # only valid indices, no duplicates: a sort of the result must touch exactly the slice this query appended (rule shared with C05)
     import importlib.util
     spec = importlib.util.spec_from_file_location('c05mod', os.path.join(os.path.dirname(os.path.abspath(__file__)), 'c05.py'))
